@@ -53,6 +53,24 @@ class Spec:
         # token inputs with their own spans: token i spans 3i+1 .. 3i+2 (gaps between all tokens and before the first)
         if ik in ("mapped", "mappedstream", "iter"):
             return [[t, 3 * i + 1, 3 * i + 2] for i, t in enumerate(inp)]
+        if ik == "tree":
+            # token trees: leaf = (t s e), group = ((G id children) s e); gapped spans, a group spans its children; ids in pre-order
+            st = dict(pos=0, gid=2000000)
+            def lay(items):
+                out = []
+                for t in items:
+                    s0 = st["pos"] + 1
+                    if is_group(t):
+                        st["gid"] += 1; gid = st["gid"]
+                        st["pos"] = s0
+                        ch = lay(t[1])
+                        st["pos"] += 1
+                        out.append([["G", gid, ch], s0, st["pos"]])
+                    else:
+                        st["pos"] = s0 + 1
+                        out.append([t, s0, s0 + 1])
+                return out
+            return lay(inp)
         return inp
 
     def cases(self, rng, tier, start_id=1):
@@ -66,7 +84,7 @@ class Spec:
         for gi in range(n + len(extra)):
             if gi < n:
                 g = self.gen_hook(G, rng) if self.gen_hook else G.g(rng.randint(*self.depth))
-                inps = inputs_for(rng, g, self.alpha, extra_alpha=[EURO] if (rng.random() < 0.2 and not self.all_kinds) else [])
+                inps = inputs_for(rng, g, self.alpha, extra_alpha=[EURO] if (rng.random() < 0.2 and not self.all_kinds) else [], trees="tree" in self.ikinds)
             else:
                 g, one = extra[gi - n]
                 inps = [one]
@@ -103,6 +121,17 @@ def span_wf_oracle(meta, impl):
         f = err_found(e)
         want = meta["inp"][sp[0]] if sp[0] < n else None
         if f != want: return f"found={f} but token at span start {sp[0]} is {want}"
+    return None
+
+def drop_oracle(meta, impl):
+    """C19: after the parse (result, parser and input dropped) no tracked value is live, none was dropped twice, and
+    the output holds exactly the tracked values it shows."""
+    if impl.drops is None: return None
+    live, dbl, out = impl.drops
+    if dbl: return "a value was dropped twice"
+    if live: return f"{live} value(s) created by the mappers were never dropped (leak)"
+    shown = (impl.val or "").replace("(", " ").replace(")", " ").split().count("K") if impl.kind == "OK" else 0
+    if out != shown: return f"output holds {out} tracked values but shows {shown}"
     return None
 
 def has_head(g, heads):
@@ -238,5 +267,33 @@ SPECS = {
                      "all error types; observable = the verdict class (OK / FAIL / PANIC / TIMEOUT)"),
 }
 
+SPECS["C19"] = Spec("C19", CORE + ["Map"] * 6 + ITER + ["CollectExactly"] * 3 + ["GroupArr"] * 5 + ["Group"] * 2 + RECOVER + EMIT, obs_full, sem_obs=obs_vv_emis_last,
+                    ekinds=("rich",), ikinds=("str", "slice", "stream"), extra=drop_oracle, n_quick=700, n_thorough=8000,
+                    gen_hook=lambda G, rng: (setattr(G, "track", True), ["Then", ["Map", "FNew", "Any"], G.g(rng.randint(1, 3))] if rng.random() < 0.15 else G.g(rng.randint(2, 4)))[1],
+                    nontrivial=lambda g, inp: len(inp) > 0 and "FNew" in str(g) and has_head(g, {"GroupArr", "CollectExactly", "Group", "Foldl", "Foldr", "RecoverVia", "Or", "Collect"}),
+                    rule="C01/C02/C08 grammars extended with group([..;N]) (N = 1..4), group((..)), collect_exactly::<[T;N]>, folds and recovery, whose map "
+                         "closures create drop-tracked values (unique id, registered on creation and on Clone, unregistered on Drop; dropping an unregistered id "
+                         "raises the double-drop flag); parse and check, &str / &[T] / Stream; after each case the result, the parser and the input are dropped "
+                         "and the live set must be empty; non-trivial = a tracked mapper and a fixed-size / folding / backtracking node present, non-empty input")
+NO_STATE_MW = ["MWSpan", "MWCtx"]
+def c16_hook(G, rng):
+    G.mws = ["MWSpan", "MWCtx"]
+    d = rng.randint(1, 3)
+    inner = G.g(d)
+    c = rng.random()
+    n = ["NestedIn", inner]
+    if c < 0.3: return ["Then", G.g(1), ["Then", n, G.g(1)]]
+    if c < 0.5: return ["Or", ["Then", n, G.g(1)], G.g(2)]
+    if c < 0.65: return ["Collect", "CVec", ["IRep", ["Or", n, G.leaf(True)], 0, "inf"]]
+    if c < 0.75: return ["RecoverVia", n, ["To", 7, "Any"]]
+    return G.g(rng.randint(2, 4))
+SPECS["C16"] = Spec("C16", CORE + ITER + EMIT + ["RecoverVia"] + ["NestedIn"] * 8 + ["MapWith", "ToSpan"], obs_full, sem_obs=obs_vv_emis_last, ekinds=("rich",), ikinds=("tree",),
+                    gen_hook=c16_hook, slices=False, n_quick=800, n_thorough=8000, emit_bias=0.15,
+                    nontrivial=lambda g, inp: has_head(g, {"NestedIn"}) and any(is_group(t) for t in inp),
+                    rule="token trees (leaves and group tokens, nested up to the grammar's nesting depth, gapped spans, a group spanning its children) with "
+                         "C01/C02 grammars at every level and nested_in at random nodes (nested up to 4 deep), validate emitters inside and outside; inputs: "
+                         "sampled trees, ill-formed inner sequences (mutations inside groups), a leaf where a group is expected, truncated / extended, random "
+                         "trees; the machine's inner parse is the machine itself on the group's children (coq/Model/Nested.v); "
+                         "non-trivial = a nested_in node in the grammar and a group token in the input")
 SPECS["C10"].all_kinds = True
 SPECS["C10"].extra_cases = c10_long
